@@ -25,8 +25,15 @@ def run(ctx):
     ctx.cov["exhaustive"] = True
     ctx.sample({"recorded_network": {k: nets[10][k] for k in ("family", "n", "entry", "seq")}})
     # explicit-state exploration of the recorded networks (all 2^n inputs x every prefix of the comparator sequence)
-    tlc_mc(ctx, SD, "NetI", "mc_net.cfg", workers=8, coverage=False, env={"TRACE": tr}, timeout=3000, xmx="16g",
-           cfg_text="CONSTANT MaxN = %d\nSPECIFICATION Spec\nINVARIANT SortedAtEnd\nCHECK_DEADLOCK FALSE\n" % (10 if quick else 16))
+    # (the networks come from the code under test: an invariant violation here is a verdict on the code, reported precisely by the trace validation below)
+    r = tlc_mc(ctx, SD, "NetI", "mc_net.cfg", workers=8, coverage=False, env={"TRACE": tr}, timeout=3000, xmx="16g", expect_ok=False,
+               cfg_text="CONSTANT MaxN = %d\nSPECIFICATION Spec\nINVARIANT SortedAtEnd\nCHECK_DEADLOCK FALSE\n" % (10 if quick else 16))
+    if r["ok"]:
+        ctx.add_model_run(r)
+    elif "Invariant SortedAtEnd is violated" in r["out"]:
+        ctx.notes.append("NetI: a recorded network leaves some zero-one input unsorted (see the violation reported by the trace validation)")
+    else:
+        raise InternalError("TLC model check NetI failed (rc=%s):\n%s" % (r["rc"], r["out"][-3000:]))
     # vacuity guard: a network with one comparator removed must be rejected
     broken = json.loads(json.dumps([n for n in nets if n["family"] == "best" and n["n"] == 16 and n["entry"] == "direct"][0]))
     del broken["seq"][len(broken["seq"]) // 2]
